@@ -19,7 +19,7 @@ from fractions import Fraction
 from . import core
 
 THEOREMS = ["C11_expr", "C11_residual", "C11_total", "C11_total_fixed_table", "C11_total_refuted_ne",
-            "C11_loop_range", "C11_three_part_range", "C11_three_part_range_old_reading_refuted",
+            "C11_affine_subscript", "C11_loop_range", "C11_three_part_range", "C11_three_part_range_old_reading_refuted",
             "C11_function", "C11_call_residual", "C11_function_order", "C11_function_if_refuted",
             "C11_function_if_repaired_witness", "C11_function_if_example", "C11_matrix_residual", "C11_square_not_transposed", "C11_example"]
 
@@ -1361,6 +1361,8 @@ def ce(e):
         return "(ERef (RIdx %s %s))" % (core.cq_pos(ARR_ID[e[1]]), core.cq_Z(e[2]))
     if t == "lidx":
         return "(ERef (RLoopIdx %s %s))" % (core.cq_pos(ARR_ID[e[1]]), core.cq_Z(e[2]))
+    if t == "aidx":
+        return "(ERef (RAff %s %s %s))" % (core.cq_pos(ARR_ID[e[1]]), core.cq_Z(e[2]), core.cq_Z(e[3]))
     if t == "loopvar":
         return "(ERef RLoopVar)"
     if t == "un":
@@ -1526,7 +1528,7 @@ def encode_xcases(m, r):
 
 def encode_cases(m, r):
     """one Coq case per judged point (or one case with impl_ok = false)"""
-    if m.get("decl") in ("fun", "mat") or is_neg_literal_failure(m, r) or has(m, '"aidx"'):
+    if m.get("decl") in ("fun", "mat") or is_neg_literal_failure(m, r):
         return []      # outside the Coq model (oracle-only streams; the negative-literal-step finding)
     eqs = m["eqs"] + m["ieqs"]
     if r.get("generate") != "ok":
